@@ -30,6 +30,12 @@
 #include <errno.h>
 
 extern int __lsan_do_recoverable_leak_check(void);
+#ifdef VERIF_COV
+extern void __gcov_dump(void);
+#define COV_FLUSH() do { g_armed = 0; __gcov_dump(); } while (0)
+#else
+#define COV_FLUSH() ((void)0)
+#endif
 
 /* ------------------------------------------------------------------------------- interposition */
 #ifdef EXT_INTERPOSE
@@ -139,7 +145,8 @@ static void rec(const char* api, long st, int ok) {
 /* 'n' / 'm': INT32 / DOUBLE OPTIONAL columns written with def_levels == NULL (legal: every value present) */
 static int type_nolevels(char t) { return t == 'n' || t == 'm'; }
 static int type_optional(char t) { return (t >= 'A' && t <= 'Z') || type_nolevels(t); }
-static char type_base(char t) { return t == 'n' ? 'i' : t == 'm' ? 'd' : (char)(t | 0x20); }
+static int type_repeated(char t) { return t == 'r' || t == 'q'; }   /* INT32 REPEATED: 'r' written with repetition levels, 'q' with rep_levels == NULL */
+static char type_base(char t) { return t == 'n' ? 'i' : t == 'm' ? 'd' : (t == 'r' || t == 'q') ? 'i' : (char)(t | 0x20); }
 static carquet_physical_type_t type_phys(char t) {
     switch (type_base(t)) {
         case 'i': return CARQUET_PHYSICAL_INT32; case 'l': return CARQUET_PHYSICAL_INT64;
@@ -194,6 +201,7 @@ static int gen_page(const tspec_t* f, int g, int p, int c, uint8_t* vals, int16_
 /* Build the schema and write the table.  armed: count/fail allocation requests inside API calls.
  * after_close: what to do with the writer after a failed call (0 abort, 1 close).  Returns 0 when
  * every call reported success. */
+static int g_use_file = 0;   /* writef: carquet_writer_create_file on a FILE* of the caller, default options */
 static int do_write(const tspec_t* f, int armed, int after_close) {
     carquet_error_t err = CARQUET_ERROR_INIT;
     if (armed) ARM();
@@ -204,7 +212,9 @@ static int do_write(const tspec_t* f, int armed, int after_close) {
     for (int c = 0; c < f->ncols; c++) {
         char name[16]; snprintf(name, sizeof name, "c%d", c);
         if (armed) ARM();
-        carquet_status_t st = carquet_schema_add_column(sc, name, type_phys(f->types[c]), NULL,
+        carquet_logical_type_t lts; memset(&lts, 0, sizeof lts); lts.id = CARQUET_LOGICAL_STRING;
+        carquet_status_t st = carquet_schema_add_column(sc, name, type_phys(f->types[c]), type_base(f->types[c]) == 'b' ? &lts : NULL,
+            type_repeated(f->types[c]) ? CARQUET_REPETITION_REPEATED :
             type_optional(f->types[c]) ? CARQUET_REPETITION_OPTIONAL : CARQUET_REPETITION_REQUIRED, type_base(f->types[c]) == 'x' ? 8 : 0);
         DISARM();
         rec("ac", st, st == CARQUET_OK);
@@ -212,13 +222,25 @@ static int do_write(const tspec_t* f, int armed, int after_close) {
     }
     carquet_writer_options_t wo; carquet_writer_options_init(&wo);
     wo.compression = (carquet_compression_t)f->codec; wo.page_size = 1;
-    if (armed) ARM();
-    carquet_writer_t* w = carquet_writer_create(f->path, sc, &wo, &err);
-    DISARM();
+    FILE* ownfile = NULL;
+    carquet_writer_t* w;
+    if (g_use_file) {
+        ownfile = fopen(f->path, "wb");
+        if (armed) ARM();
+        w = ownfile ? carquet_writer_create_file(ownfile, sc, NULL, &err) : NULL;   /* NULL options: defaults */
+        DISARM();
+        if (!w && ownfile) { fclose(ownfile); ownfile = NULL; }
+    } else {
+        if (armed) ARM();
+        w = carquet_writer_create(f->path, sc, &wo, &err);
+        DISARM();
+    }
     rec("wc", w ? 0 : (long)err.code, w != NULL);
     if (!w) { if (armed) ARM(); carquet_schema_free(sc); DISARM(); return 1; }
     int rpp = f->rpp;
     int16_t* def = __real_malloc(sizeof(int16_t) * (size_t)rpp);
+    int16_t* rep = __real_malloc(sizeof(int16_t) * (size_t)rpp);
+    for (int r = 0; r < rpp; r++) rep[r] = (int16_t)((r % 3) != 0);   /* lists of three */
     uint8_t* vals = __real_malloc(16 * (size_t)rpp);
     char* strs = __real_malloc(24 * (size_t)rpp);
     int bad = 0;
@@ -228,7 +250,7 @@ static int do_write(const tspec_t* f, int armed, int after_close) {
                 char t = f->types[c]; int opt = type_optional(t);
                 (void)gen_page(f, g, p, c, vals, def, strs);
                 if (armed) ARM();
-                carquet_status_t st = carquet_writer_write_batch(w, c, vals, rpp, (opt && !type_nolevels(t)) ? def : NULL, NULL);
+                carquet_status_t st = carquet_writer_write_batch(w, c, vals, rpp, (opt && !type_nolevels(t)) ? def : NULL, t == 'r' ? rep : NULL);
                 DISARM();
                 rec("wb", st, st == CARQUET_OK);
                 if (st != CARQUET_OK) bad = 1;
@@ -242,7 +264,7 @@ static int do_write(const tspec_t* f, int armed, int after_close) {
             if (st != CARQUET_OK) bad = 1;
         }
     }
-    free(def); free(vals); free(strs);
+    free(def); free(rep); free(vals); free(strs);
     if (bad && !after_close) {
         if (armed) ARM();
         carquet_writer_abort(w);
@@ -254,6 +276,7 @@ static int do_write(const tspec_t* f, int armed, int after_close) {
         DISARM();
         if (bad) rec("cl_after_error", st, 1); else { rec("cl", st, st == CARQUET_OK); if (st != CARQUET_OK) bad = 1; }
     }
+    if (ownfile) { fclose(ownfile); if (bad) remove(f->path); }
     if (armed) ARM();
     carquet_schema_free(sc);
     DISARM();
@@ -355,6 +378,7 @@ static int do_read(const tspec_t* f, const char* path, const char* mode, int arm
     return bad;
 }
 
+static int g_proj = 0;  /* batchidx / batchname: column projection by index / by name */
 static int g_big = 0;   /* readbig / batchbig: one call (one batch) spans all pages of a row group */
 /* column reader API, ONE read call for all pages of a column chunk.  Every returned value - in particular every
  * byte-array pointer - is dereferenced AFTER the call has returned (hash_page), which is what the caller does. */
@@ -460,6 +484,13 @@ static int do_batch(const tspec_t* f, const char* path, const char* mode, int ar
     int bad = 0;
     carquet_batch_reader_config_t cfg; carquet_batch_reader_config_init(&cfg);
     cfg.batch_size = g_big ? f->rpp * f->npages : f->rpp; cfg.num_threads = 1;
+    /* projections: by index (last column, first column) or by name ("c<last>", "c0") */
+    int32_t pidx[2] = { f->ncols - 1, 0 }; char pn0[16], pn1[16]; const char* pnames[2] = { pn0, pn1 };
+    snprintf(pn0, sizeof pn0, "c%d", f->ncols - 1); snprintf(pn1, sizeof pn1, "c0");
+    int nproj = f->ncols; int proj[64]; for (int c = 0; c < f->ncols && c < 64; c++) proj[c] = c;
+    if (g_proj == 1) { cfg.column_indices = pidx; cfg.num_columns = 2; }
+    if (g_proj == 2) { cfg.column_names = pnames; cfg.num_column_names = 2; }
+    if (g_proj) { nproj = 2; proj[0] = f->ncols - 1; proj[1] = 0; }
     carquet_error_t err = CARQUET_ERROR_INIT;
     if (armed) ARM();
     carquet_batch_reader_t* br = carquet_batch_reader_create(o.r, &cfg, &err);
@@ -487,10 +518,10 @@ static int do_batch(const tspec_t* f, const char* path, const char* mode, int ar
                 if (b) {
                     /* touch what an OK batch hands out */
                     int64_t rows = carquet_row_batch_num_rows(b); uint64_t hh = FNV0;
-                    for (int c = 0; c < f->ncols && st == CARQUET_OK; c++) {
+                    for (int c = 0; c < nproj && st == CARQUET_OK; c++) {
                         const void* data; const uint8_t* nb; int64_t nv;
-                        if (carquet_row_batch_column(b, c, &data, &nb, &nv) == CARQUET_OK && data && nv > 0 && type_base(f->types[c]) != 'b' && !type_optional(f->types[c]))
-                            hh = fnv(hh, data, (size_t)nv * type_size(f->types[c]));
+                        if (carquet_row_batch_column(b, c, &data, &nb, &nv) == CARQUET_OK && data && nv > 0 && type_base(f->types[proj[c]]) != 'b' && !type_optional(f->types[proj[c]]))
+                            hh = fnv(hh, data, (size_t)nv * type_size(f->types[proj[c]]));
                         if (nb && nv > 0) hh = fnv(hh, nb, (size_t)((nv + 7) / 8));
                     }
                     (void)rows; (void)hh;
@@ -502,10 +533,10 @@ static int do_batch(const tspec_t* f, const char* path, const char* mode, int ar
         if (b) {
             int64_t rows = carquet_row_batch_num_rows(b);
             *eff = fnv(*eff, &rows, sizeof rows);
-            for (int c = 0; c < f->ncols; c++) {
+            for (int c = 0; c < nproj; c++) {
                 const void* data; const uint8_t* nb; int64_t nv;
                 if (carquet_row_batch_column(b, c, &data, &nb, &nv) != CARQUET_OK) { bad = 1; break; }
-                char t = f->types[c];
+                char t = f->types[proj[c]];
                 *eff = fnv(*eff, &nv, sizeof nv);
                 if (nv > 0 && !nb) { /* a batch reported OK must carry its null bitmap */ *eff = fnv(*eff, "nobitmap", 8); }
                 int64_t nn = nv;
@@ -526,6 +557,171 @@ static int do_batch(const tspec_t* f, const char* path, const char* mode, int ar
     carquet_batch_reader_free(br);
     DISARM();
     close_mode(&o, armed);
+    return bad;
+}
+
+/* ------------------------------------------------------------------------------- foreign files
+ *   foreign <path> <mode> <col|batch>
+ * A file produced by the independent writer tools/pq.py (dictionary pages, key/value metadata, statistics,
+ * encoding stats, ...): schema and sizes are taken from the reader.  Flat schemas only. */
+#include "reader/reader_internal.h"
+static size_t phys_size(carquet_physical_type_t t, int32_t tl) {
+    switch (t) { case CARQUET_PHYSICAL_BOOLEAN: return 1; case CARQUET_PHYSICAL_INT32: case CARQUET_PHYSICAL_FLOAT: return 4;
+                 case CARQUET_PHYSICAL_INT64: case CARQUET_PHYSICAL_DOUBLE: return 8; case CARQUET_PHYSICAL_INT96: return 12;
+                 case CARQUET_PHYSICAL_FIXED_LEN_BYTE_ARRAY: return tl > 0 ? (size_t)tl : 1; case CARQUET_PHYSICAL_BYTE_ARRAY: return sizeof(carquet_byte_array_t);
+                 default: return 8; }
+}
+static uint64_t hash_dense(uint64_t h, carquet_physical_type_t t, size_t vs, const uint8_t* vals, size_t nn) {
+    if (t == CARQUET_PHYSICAL_BYTE_ARRAY) {
+        for (size_t i = 0; i < nn; i++) { carquet_byte_array_t ba; memcpy(&ba, vals + vs * i, sizeof ba);
+            h = fnv(h, &ba.length, 4); if (ba.length > 0 && ba.data) h = fnv(h, ba.data, (size_t)ba.length); }
+        return h;
+    }
+    return fnv(h, vals, nn * vs);
+}
+static int do_foreign(const char* path, const char* mode, int batch_api, int armed, uint64_t* eff) {
+    opened_t o; *eff = FNV0;
+    if (open_mode(path, mode, &o, armed)) return 1;
+    int bad = 0;
+    const carquet_schema_t* sc = carquet_reader_schema(o.r);
+    int ncols = carquet_reader_num_columns(o.r), nrg = carquet_reader_num_row_groups(o.r);
+    if (!batch_api) {
+        size_t cap = 512;
+        for (int g = 0; g < nrg; g++) for (int c = 0; c < ncols; c++) {
+            const parquet_schema_element_t* el = &sc->elements[sc->leaf_indices[c]];
+            size_t vs = phys_size(el->type, el->type_length); int16_t maxd = sc->max_def_levels[c];
+            carquet_error_t err = CARQUET_ERROR_INIT;
+            if (armed) ARM();
+            carquet_column_reader_t* cr = carquet_reader_get_column(o.r, g, c, &err);
+            DISARM();
+            rec(bad ? "gc_after_error" : "gc", cr ? 0 : (long)err.code, bad || cr != NULL);
+            if (!cr) { bad = 1; continue; }
+            uint8_t* vals = __real_malloc(vs * cap + 16); int16_t* def = __real_malloc(2 * cap + 2);
+            uint64_t hdef = FNV0, hval = FNV0; int64_t total = 0;
+            for (int calls = 0; calls < 64; calls++) {
+                if (armed) ARM();
+                int64_t n = carquet_column_read_batch(cr, vals, (int64_t)cap, maxd > 0 ? def : NULL, NULL);
+                DISARM();
+                rec("rb", (long)n, n >= 0);
+                if (n < 0) { bad = 1;
+                    if (armed) ARM(); int64_t n2 = carquet_column_read_batch(cr, vals, (int64_t)cap, maxd > 0 ? def : NULL, NULL); DISARM();
+                    rec("rb_again", (long)n2, 1); break; }
+                if (n == 0) break;
+                /* running hashes that do not depend on how the rows are split over calls (a call may deliver fewer
+                 * rows than asked for); every value is dereferenced right after the call that delivered it */
+                size_t nn = (size_t)n;
+                if (maxd > 0) { nn = 0; for (int64_t i = 0; i < n; i++) if (def[i] == maxd) nn++; hdef = fnv(hdef, def, (size_t)n * 2); }
+                total += n;
+                hval = hash_dense(hval, el->type, vs, vals, nn);
+            }
+            if (!bad) { *eff = fnv(*eff, &total, sizeof total); *eff = fnv(*eff, &hdef, sizeof hdef); *eff = fnv(*eff, &hval, sizeof hval); }
+            free(vals); free(def);
+            if (armed) ARM();
+            carquet_column_reader_free(cr);
+            DISARM();
+        }
+    } else {
+        carquet_batch_reader_config_t cfg; carquet_batch_reader_config_init(&cfg);
+        cfg.batch_size = 64; cfg.num_threads = 1;
+        carquet_error_t err = CARQUET_ERROR_INIT;
+        if (armed) ARM();
+        carquet_batch_reader_t* br = carquet_batch_reader_create(o.r, &cfg, &err);
+        DISARM();
+        rec("bc", br ? 0 : (long)err.code, br != NULL);
+        if (!br) { close_mode(&o, armed); return 1; }
+        for (int i = 0; i < 200; i++) {
+            carquet_row_batch_t* b = NULL;
+            if (armed) ARM();
+            carquet_status_t st = carquet_batch_reader_next(br, &b);
+            DISARM();
+            if (st == CARQUET_ERROR_END_OF_DATA) { rec("bn", st, 1); break; }
+            rec("bn", st, st == CARQUET_OK && b);
+            if (st != CARQUET_OK || !b) { bad = 1; if (b) { if (armed) ARM(); carquet_row_batch_free(b); DISARM(); }
+                if (armed) ARM(); b = NULL; st = carquet_batch_reader_next(br, &b); DISARM(); rec("bn_again", st, 1);
+                if (b) { if (armed) ARM(); carquet_row_batch_free(b); DISARM(); }
+                break; }
+            int64_t rows = carquet_row_batch_num_rows(b); *eff = fnv(*eff, &rows, sizeof rows);
+            for (int c = 0; c < ncols; c++) {
+                const parquet_schema_element_t* el = &sc->elements[sc->leaf_indices[c]];
+                size_t vs = phys_size(el->type, el->type_length);
+                const void* data; const uint8_t* nb; int64_t nv;
+                if (carquet_row_batch_column(b, c, &data, &nb, &nv) != CARQUET_OK) { bad = 1; break; }
+                *eff = fnv(*eff, &nv, sizeof nv);
+                size_t nn = (size_t)(nv > 0 ? nv : 0);
+                if (nb && nv > 0) { *eff = fnv(*eff, nb, (size_t)((nv + 7) / 8));
+                    if (sc->max_def_levels[c] > 0) { nn = 0; for (int64_t j = 0; j < nv; j++) if (!((nb[j / 8] >> (j % 8)) & 1)) nn++; } }
+                if (data && nv > 0) *eff = hash_dense(*eff, el->type, vs, (const uint8_t*)data, nn);
+            }
+            if (armed) ARM();
+            carquet_row_batch_free(b);
+            DISARM();
+        }
+        if (armed) ARM();
+        carquet_batch_reader_free(br);
+        DISARM();
+    }
+    close_mode(&o, armed);
+    return bad;
+}
+
+/* ------------------------------------------------------------------------------- core API
+ *   coreapi
+ * The public functions of core/buffer.c and core/arena.c that the file scenarios do not call (or call only on
+ * their success path): capacity / copy initialisers, resize, fill, typed appends, advance, shrink, detach;
+ * arena string / memory copies, save / restore / reset, allocation from a later block of the chain. */
+#include "core/buffer.h"
+static int do_coreapi(int armed, uint64_t* eff) {
+    *eff = FNV0; int bad = 0;
+    carquet_buffer_t b, b2, w; uint8_t src[5000]; for (size_t i = 0; i < sizeof src; i++) src[i] = (uint8_t)(i * 7);
+    carquet_status_t st;
+#define BCALL(tag, expr) do { if (!bad) { if (armed) ARM(); st = (expr); DISARM(); rec(tag, st, st == CARQUET_OK); if (st != CARQUET_OK) bad = 1; } } while (0)
+    carquet_buffer_init(&b); carquet_buffer_init(&b2);
+    BCALL("b_cap", carquet_buffer_init_capacity(&b, 100));
+    BCALL("b_copy", carquet_buffer_init_copy(&b2, src, sizeof src));
+    BCALL("b_resize", carquet_buffer_resize(&b, 9000));
+    BCALL("b_fill", carquet_buffer_append_fill(&b, 7, 300));
+    BCALL("b_u16", carquet_buffer_append_u16_le(&b, 0x1234));
+    BCALL("b_u32", carquet_buffer_append_u32_le(&b, 0x12345678u));
+    BCALL("b_u64", carquet_buffer_append_u64_le(&b, 0x123456789abcdef0ull));
+    BCALL("b_f32", carquet_buffer_append_f32_le(&b, 1.5f));
+    BCALL("b_f64", carquet_buffer_append_f64_le(&b, 2.25));
+    BCALL("b_reserve", carquet_buffer_reserve(&b, 40000));
+    if (!bad) { if (armed) ARM(); uint8_t* p = carquet_buffer_advance(&b, 30000); DISARM(); rec("b_adv", p ? 0 : 2, p != NULL); if (!p) bad = 1; else memset(p, 9, 30000); }
+    if (!bad) { if (armed) ARM(); uint8_t* p = carquet_buffer_advance(&b, 0); DISARM(); rec("b_adv0", p ? 1 : 0, 1); }
+    BCALL("b_shrink", carquet_buffer_shrink_to_fit(&b));
+    BCALL("b_append_after_shrink", carquet_buffer_append(&b, src, 100));
+    carquet_buffer_init_wrap(&w, src, 64);
+    if (!bad) { if (armed) ARM(); st = carquet_buffer_append(&w, src, 8); DISARM(); rec("w_append", st, st != CARQUET_OK); }   /* must refuse to grow */
+    if (!bad) { *eff = fnv(*eff, b.data, b.size); *eff = fnv(*eff, b2.data, b2.size); }
+    { size_t n = 0; uint8_t* d = NULL; if (armed) ARM(); d = carquet_buffer_detach(&b2, &n); DISARM(); if (!bad) *eff = fnv(*eff, &n, sizeof n); free(d); }
+    carquet_buffer_swap(&b, &b2);
+    if (armed) ARM(); carquet_buffer_shrink_to_fit(&b); DISARM();   /* b is empty now: frees */
+    carquet_buffer_destroy(&b); carquet_buffer_destroy(&b2);
+    /* arena */
+    carquet_arena_t a; int have = 0;
+    if (!bad) { if (armed) ARM(); st = carquet_arena_init_size(&a, 4096); DISARM(); rec("a_init", st, st == CARQUET_OK); if (st != CARQUET_OK) bad = 1; else have = 1; }
+#define ACALL(tag, var, expr) do { if (!bad) { if (armed) ARM(); var = (expr); DISARM(); rec(tag, var ? 0 : 2, var != NULL); if (!var) bad = 1; } } while (0)
+    char* s1 = NULL; char* s2 = NULL; void* m1 = NULL; void* p1 = NULL; void* big = NULL; void* z = NULL; void* later = NULL; void* q = NULL;
+    ACALL("a_alloc", p1, carquet_arena_alloc(&a, 100));
+    ACALL("a_calloc", z, carquet_arena_calloc(&a, 10, 12));
+    ACALL("a_strdup", s1, carquet_arena_strdup(&a, "hello arena"));
+    ACALL("a_strndup", s2, carquet_arena_strndup(&a, "truncated-here", 9));
+    ACALL("a_memdup", m1, carquet_arena_memdup(&a, src, 777));
+    if (!bad) { if (armed) ARM(); void* ov = carquet_arena_calloc(&a, (size_t)-1 / 2, 4); DISARM(); rec("a_overflow", ov ? 1 : 0, ov == NULL); }
+    if (!bad) {
+        carquet_arena_mark_t mk = carquet_arena_save(&a);
+        ACALL("a_big", big, carquet_arena_alloc(&a, 70000));           /* second block */
+        if (!bad) { memset(big, 3, 70000); carquet_arena_restore(&a, mk); }
+        ACALL("a_fill_first", q, carquet_arena_alloc(&a, 65000));        /* does not fit the rest of block 1 ... */
+        ACALL("a_later_block", later, carquet_arena_alloc(&a, 66000));   /* ... found in the existing later block or a new one */
+    }
+    if (!bad) { *eff = fnv(*eff, s1, strlen(s1)); *eff = fnv(*eff, s2, strlen(s2)); *eff = fnv(*eff, m1, 777); *eff = fnv(*eff, z, 120); }
+    if (have) {
+        carquet_arena_reset(&a);
+        if (!bad) { ACALL("a_after_reset", p1, carquet_arena_alloc(&a, 64)); }
+        carquet_arena_destroy(&a);
+    }
+    (void)later; (void)q;
     return bad;
 }
 
@@ -631,6 +827,7 @@ static void run_child(int t0, long fail_at, int record, child_res* res) {
         printf("calls=%s ok=%d eff=%016llx fsize=%ld leak=%d reqs=%ld hit=%d rb=%d", g_calls[0] ? g_calls : "-", (!bad && g_allok) ? 1 : 0,
                (unsigned long long)eff, fsize, leak ? 1 : 0, SH->count, SH->failed_seen, g_readback);
         fflush(stdout);
+        COV_FLUSH();
         _exit(0);
     }
     close(po[1]); close(pe[1]);
@@ -676,14 +873,17 @@ static int run_scenario(int t0, int armed, uint64_t* eff, long* fsize) {
     const char* kind = h_tok[t0];
     *eff = 0; *fsize = -1;
     if (!strcmp(kind, "schema")) return do_schema(atoi(h_tok[t0 + 1]), armed, eff);
+    if (!strcmp(kind, "coreapi")) return do_coreapi(armed, eff);
+    if (!strcmp(kind, "foreign")) return do_foreign(h_tok[t0 + 1], h_tok[t0 + 2], !strcmp(h_tok[t0 + 3], "batch"), armed, eff);
     tspec_t f;
+    if (!strcmp(kind, "writef")) { g_use_file = 1; kind = "write"; }
     if (!strcmp(kind, "write")) {
         if (parse_tspec(&f, t0 + 1, "w") < 0) return 1;
         int after_close = h_ntok > t0 + 7 && !strcmp(h_tok[t0 + 7], "close");
         remove(f.path);
         int bad = do_write(&f, armed, after_close);
         *eff = file_hash(f.path, fsize);
-        if (!bad && SH->fail_at == 0) {
+        if (!bad && SH->fail_at == 0 && !strchr(f.types, 'r') && !strchr(f.types, 'q')) {
             /* fault-free run: the file must read back (no faults injected) to the intended table; the runs
              * with a failing request are then compared with this file byte for byte */
             uint64_t got = 0; size_t keep = g_ncalls; int ok = g_allok;
@@ -702,6 +902,8 @@ static int run_scenario(int t0, int armed, uint64_t* eff, long* fsize) {
         return bad;
     }
     if (!strcmp(kind, "batchbig")) { g_big = 1; return do_batch(&f, g_scen_path, mode, armed, eff); }
+    if (!strcmp(kind, "batchidx")) { g_proj = 1; return do_batch(&f, g_scen_path, mode, armed, eff); }
+    if (!strcmp(kind, "batchname")) { g_proj = 2; return do_batch(&f, g_scen_path, mode, armed, eff); }
     if (!strcmp(kind, "read")) return do_read(&f, g_scen_path, mode, armed, eff);
     if (!strcmp(kind, "batch")) return do_batch(&f, g_scen_path, mode, armed, eff);
     return 1;
@@ -710,7 +912,8 @@ static int run_scenario(int t0, int armed, uint64_t* eff, long* fsize) {
 /* read/batch scenarios need their input file: written once (unarmed) by the parent */
 static int prepare(int t0) {
     const char* kind = h_tok[t0];
-    if (strcmp(kind, "read") && strcmp(kind, "batch") && strcmp(kind, "readbig") && strcmp(kind, "batchbig")) return 0;
+    if (strcmp(kind, "read") && strcmp(kind, "batch") && strcmp(kind, "readbig") && strcmp(kind, "batchbig") &&
+        strcmp(kind, "batchidx") && strcmp(kind, "batchname")) return 0;
     tspec_t f; if (parse_tspec(&f, t0 + 1, "in") < 0) return -1;
     snprintf(g_scen_path, sizeof g_scen_path, "%s/in_c%d_%s_%d_%d_%d.parquet", f.dir, f.codec, f.types, f.nrg, f.npages, f.rpp);
     struct stat sb;
@@ -720,7 +923,7 @@ static int prepare(int t0) {
     /* in a child, so that the parent never initialises the library */
     fflush(stdout);
     pid_t pid = fork();
-    if (pid == 0) { g_allok = 1; int bad = do_write(&w, 0, 0); _exit(bad ? 3 : 0); }
+    if (pid == 0) { g_allok = 1; int bad = do_write(&w, 0, 0); COV_FLUSH(); _exit(bad ? 3 : 0); }
     int st = 0; waitpid(pid, &st, 0);
     if (!WIFEXITED(st) || WEXITSTATUS(st) != 0) { remove(tmp); return -2; }
     if (rename(tmp, g_scen_path) != 0) { remove(tmp); return -3; }
